@@ -9,6 +9,8 @@ BUILD = os.path.join(VERIF, ".build")
 LEAN = os.path.join(VERIF, "lean")
 DRIVER = os.path.join(LEAN, ".lake", "build", "bin", "relic_driver")
 VH = os.path.join(BUILD, "vh")
+VH13 = os.path.join(BUILD, "vh13")      # C13 scenario driver, run under strace (see harness/cmd/vh13)
+EXTRA_BINARIES = ["vh13"]
 ALLOWED_AXIOMS = {"propext", "Classical.choice", "Quot.sound"}
 FORBIDDEN = re.compile(r"\bsorry\b|\badmit\b|^\s*axiom\s|native_decide|bv_decide|implemented_by|\bunsafe\s|maxHeartbeats\s+0\b", re.M)
 NCPU = os.cpu_count() or 4
@@ -52,6 +54,11 @@ def build_vh():
         r = sh(["go", "build", "-tags", "verif", "-o", VH, "./cmd/vh"], cwd=os.path.join(VERIF, "harness"), env=GOENV)
         if r.returncode != 0:
             raise Broken("harness does not build against /repo", r.stdout[-4000:])
+        for extra in EXTRA_BINARIES:
+            r = sh(["go", "build", "-tags", "verif", "-o", os.path.join(BUILD, extra), "./cmd/" + extra],
+                   cwd=os.path.join(VERIF, "harness"), env=GOENV)
+            if r.returncode != 0:
+                raise Broken("harness binary %s does not build against /repo" % extra, r.stdout[-4000:])
 
 
 def build_tool(name):
